@@ -8,6 +8,7 @@
 package main
 
 import (
+	"bytes"
 	"context"
 	"encoding/json"
 	"errors"
@@ -109,7 +110,7 @@ func genTasks(rng *hutil.Rng, prof string) []TaskCfg {
 	var nt int
 	switch prof {
 	case "graph", "fail", "cancel":
-		nt = 1 + rng.Pick([]int{2, 4, 5, 4, 2})
+		nt = 1 + rng.Pick([]int{2, 4, 5, 4, 3, 2, 1})
 	default:
 		nt = rng.Pick([]int{1, 8, 4, 2})
 	}
@@ -120,10 +121,11 @@ func genTasks(rng *hutil.Rng, prof string) []TaskCfg {
 		j := rng.Intn(i + 1)
 		perm[i], perm[j] = perm[j], perm[i]
 	}
+	dense := 1 + rng.Intn(2) // sparse and dense graphs
 	for i := range ts {
 		ts[i] = TaskCfg{Name: perm[i], Allow: rng.Chance(1, 5), Empty: rng.Chance(1, 10), Script: rng.Intn(4), Env: rng.Intn(3), Deps: []int{}}
 		for k := 0; k < i; k++ {
-			if rng.Chance(2, 5) {
+			if rng.Chance(dense, 5) {
 				ts[i].Deps = append(ts[i].Deps, ts[k].Name)
 			}
 		}
@@ -264,6 +266,7 @@ type SchedSnap struct {
 }
 
 type JobSnap struct {
+	HView     string     `json:"hview,omitempty"`
 	ID        int        `json:"id"`
 	Pipe      int        `json:"pipe"`
 	Start     bool       `json:"start"`
@@ -761,19 +764,33 @@ func (x *hist) apply(c cand) string {
 			opts.Variables = map[string]interface{}{"__jobID": "x", "v": ev.VN}
 		}
 		x.pipesSeen[ev.P] = true
-		j, err := x.r.ScheduleAsync(pname(ev.P), opts)
-		if err != nil {
+		// the request goes through the HTTP handler (POST /pipelines/schedule), as every request of a real client does
+		body, _ := json.Marshal(map[string]interface{}{"pipeline": pname(ev.P), "variables": opts.Variables})
+		code, resp := x.httpDo("POST", "/pipelines/schedule", opts.User, body)
+		if code != http.StatusAccepted {
+			msg := string(resp)
 			switch {
-			case errors.Is(err, prunner.ErrShuttingDown):
+			case code == http.StatusServiceUnavailable:
 				return "err:shutdown"
-			case strings.Contains(err.Error(), "is not defined"):
+			case strings.Contains(msg, "is not defined"):
 				return "err:undefined"
-			case strings.Contains(err.Error(), "queueing disabled"):
+			case strings.Contains(msg, "queueing disabled"):
 				return "err:noqueue"
-			case strings.Contains(err.Error(), "queue limit reached"):
+			case strings.Contains(msg, "queue limit reached"):
 				return "err:queuefull"
 			}
-			return "err:other:" + err.Error()
+			return fmt.Sprintf("err:other:%d:%s", code, msg)
+		}
+		var accepted struct {
+			JobID string `json:"jobId"`
+		}
+		if err := json.Unmarshal(resp, &accepted); err != nil || accepted.JobID == "" {
+			return "err:other:schedule response " + string(resp)
+		}
+		var j *prunner.PipelineJob
+		_ = x.r.ReadJob(uuid.FromStringOrNil(accepted.JobID), func(pj *prunner.PipelineJob) { j = pj })
+		if j == nil {
+			return "err:other:accepted job " + accepted.JobID + " is not known to the runner"
 		}
 		jh := x.h.Accepted(j.ID.String(), j.Pipeline)
 		x.created[jh.Idx] = x.clock
@@ -789,13 +806,16 @@ func (x *hist) apply(c cand) string {
 		} else {
 			id, _ = uuid.NewV4()
 		}
-		err := x.r.CancelJob(id)
-		switch {
-		case err == nil:
+		// POST /job/cancel through the HTTP handler
+		code, resp := x.httpDo("POST", "/job/cancel?id="+id.String(), "u0", nil)
+		var err error = fmt.Errorf("%d %s", code, resp)
+		switch code {
+		case http.StatusOK:
 			return "ok"
-		case errors.Is(err, prunner.ErrJobNotFound):
+		case http.StatusNotFound:
 			return "err:notfound"
-		case strings.Contains(err.Error(), "already completed"):
+		case http.StatusInternalServerError:
+			// the API does not say more; the only error of CancelJob besides "not found" is "already completed"
 			return "err:completed"
 		}
 		return "err:other:" + err.Error()
@@ -1389,7 +1409,10 @@ type httpTask struct {
 	Error    *string    `json:"error"`
 }
 
+// the variables are part of the API result as well
 type httpJob struct {
+	Variables map[string]interface{} `json:"variables"`
+	Created   *time.Time             `json:"created"`
 	ID        string     `json:"id"`
 	Pipeline  string     `json:"pipeline"`
 	Tasks     []httpTask `json:"tasks"`
@@ -1406,6 +1429,30 @@ type httpPipe struct {
 	Pipeline    string `json:"pipeline"`
 	Schedulable bool   `json:"schedulable"`
 	Running     bool   `json:"running"`
+}
+
+var userTokens = map[string]string{}
+
+func tokenFor(user string) string {
+	if t, ok := userTokens[user]; ok {
+		return t
+	}
+	tok := jwt.New()
+	_ = tok.Set("sub", user)
+	b, err := jwt.Sign(tok, jwa.HS256, []byte(httpSecret))
+	if err != nil {
+		panic(err)
+	}
+	userTokens[user] = string(b)
+	return string(b)
+}
+
+func (x *hist) httpDo(method, path, user string, body []byte) (int, []byte) {
+	req := httptest.NewRequest(method, path, bytes.NewReader(body))
+	req.Header.Set("Authorization", "Bearer "+tokenFor(user))
+	rec := httptest.NewRecorder()
+	x.srv.ServeHTTP(rec, req)
+	return rec.Code, rec.Body.Bytes()
 }
 
 func (x *hist) httpGet(path string, v interface{}) (int, error) {
@@ -1455,9 +1502,15 @@ func (x *hist) httpDiff(s *Snap) string {
 		return fmt.Sprintf("GET /pipelines/jobs: %d %v", code, err)
 	}
 	byID := map[int]*httpJob{}
+	prevIdx := -1
 	for i := range resp.Jobs {
 		if jh := x.h.ByUUID[resp.Jobs[i].ID]; jh != nil {
 			byID[jh.Idx] = &resp.Jobs[i]
+			// the list is newest first; job indices are acceptance order
+			if i > 0 && jh.Idx > prevIdx {
+				return fmt.Sprintf("GET /pipelines/jobs is not sorted newest first: job %d is listed after the older job %d", jh.Idx, prevIdx)
+			}
+			prevIdx = jh.Idx
 		} else {
 			return "GET /pipelines/jobs lists a job the harness does not know: " + resp.Jobs[i].ID
 		}
@@ -1469,6 +1522,9 @@ func (x *hist) httpDiff(s *Snap) string {
 		hj := byID[s.Jobs[i].ID]
 		if hj == nil {
 			return fmt.Sprintf("job %d is not listed over HTTP", s.Jobs[i].ID)
+		}
+		if b, err := json.Marshal(hj); err == nil {
+			s.Jobs[i].HView = string(b) // what the API says about the job, verbatim (compared across restarts)
 		}
 		if d := cmpJob(&s.Jobs[i], hj); d != "" {
 			return d
